@@ -26,6 +26,7 @@ import (
 	"os"
 	"reflect"
 	"regexp"
+	"runtime"
 	"sort"
 	"strings"
 	"sync"
@@ -520,6 +521,17 @@ func (c *collector) flush(r *eng.Run) {
 // ------------------------------------------------------------------------------------------------
 // helpers around the package under test
 
+// renderTimeout is a watchdog, not an oracle on speed: enumerating ≤ 1000 variants takes well under a
+// millisecond. renderAllVariants does not advance to the next variant when a rendered string fails to parse
+// ("should never occur"), so a change that makes the renderer emit an unparseable string turns the
+// enumeration into an endless loop; that is reported as a violation (the enumeration never ends) instead
+// of hanging the check. After the first such report the run is cut short (renderAborted). The watchdog looks
+// at whole work items (one pattern with all its renderings) from outside: handing every rendering to a
+// goroutine of its own made pass A several times slower on a loaded machine.
+const renderTimeout = 60 * time.Second
+
+var renderAborted int32
+
 func render(pp *patterns.PathPattern) (vs []patterns.PatternVariant, idxOK bool) {
 	idxOK = true
 	pp.RenderAllVariants(func(i int, v patterns.PatternVariant) {
@@ -527,8 +539,73 @@ func render(pp *patterns.PathPattern) (vs []patterns.PatternVariant, idxOK bool)
 			idxOK = false
 		}
 		vs = append(vs, v)
+		if len(vs) > 5000 {
+			panic("RenderAllVariants produced more than 5000 variants (limit is 1000); enumeration stopped")
+		}
 	})
 	return vs, idxOK
+}
+
+// watchedFor is eng.ParallelFor plus the watchdog: f(i) for every i < n on NumCPU workers; a worker that stays
+// on one item for longer than renderTimeout is abandoned (it spins until the process exits), no new items are
+// handed out, and the indices of the items that never returned are reported to the caller.
+func watchedFor(n int, f func(i int)) (stuck []int) {
+	w := runtime.NumCPU()
+	if w > n {
+		w = n
+	}
+	if w < 1 {
+		return nil
+	}
+	type slot struct {
+		idx, since int64
+		_          [6]int64
+	}
+	slots := make([]slot, w)
+	next := int64(-1)
+	var stop int32
+	done := make(chan int, w)
+	for k := 0; k < w; k++ {
+		slots[k].idx = -1
+		go func(k int) {
+			defer func() { done <- k }()
+			for atomic.LoadInt32(&stop) == 0 {
+				i := atomic.AddInt64(&next, 1)
+				if i >= int64(n) {
+					return
+				}
+				atomic.StoreInt64(&slots[k].since, time.Now().UnixNano())
+				atomic.StoreInt64(&slots[k].idx, i)
+				f(int(i))
+				atomic.StoreInt64(&slots[k].idx, -1)
+			}
+		}(k)
+	}
+	tick := time.NewTicker(2 * time.Second)
+	defer tick.Stop()
+	isStuck := make([]bool, w)
+	for finished := 0; finished+len(stuck) < w; {
+		select {
+		case <-done:
+			finished++
+		case <-tick.C:
+			now := time.Now().UnixNano()
+			for k := range slots {
+				if isStuck[k] {
+					continue
+				}
+				// `since` is written before `idx`: an index read here is never paired with an older start time
+				i := atomic.LoadInt64(&slots[k].idx)
+				if i >= 0 && now-atomic.LoadInt64(&slots[k].since) > int64(renderTimeout) {
+					isStuck[k] = true
+					stuck = append(stuck, int(i))
+					atomic.StoreInt32(&stop, 1)
+					atomic.StoreInt32(&renderAborted, 1)
+				}
+			}
+		}
+	}
+	return stuck
 }
 
 // variantOf parses a group-free pattern and returns its single variant.
@@ -644,6 +721,9 @@ func (c *checker) checkPattern(p pat) (res patResult) {
 			res = patResult{}
 		}
 	}()
+	if atomic.LoadInt32(&renderAborted) != 0 {
+		return patResult{}
+	}
 	ast, bad := refParse(p.s)
 	var raw int64
 	if bad == "" {
@@ -1066,23 +1146,23 @@ func boundaryFamily() []pat {
 	var out []pat
 	add := func(s string) { out = append(out, pat{s, []string{s}}) }
 	g10 := func(p string) string { return altList(10, p) }
-	add("/" + g10("a") + g10("b") + g10("c"))                                 // 1000
-	add("/" + g10("a") + g10("b") + altList(11, "c"))                         // 1100
-	add("/{" + g10("a") + g10("b") + g10("c") + ",x}")                        // 1001 (sum at the top)
+	add("/" + g10("a") + g10("b") + g10("c"))                                         // 1000
+	add("/" + g10("a") + g10("b") + altList(11, "c"))                                 // 1100
+	add("/{" + g10("a") + g10("b") + g10("c") + ",x}")                                // 1001 (sum at the top)
 	add("/{" + g10("a") + g10("b") + altList(9, "c") + "," + altList(100, "d") + "}") // 900+100 = 1000
 	add("/{" + g10("a") + g10("b") + altList(9, "c") + "," + altList(101, "d") + "}") // 1001
-	add("/" + strings.Repeat("{a,b}", 9))                                     // 512
-	add("/" + strings.Repeat("{a,b}", 10))                                    // 1024
-	add("/" + altList(1000, "a"))                                             // 1000
-	add("/" + altList(1001, "a"))                                             // 1001
-	add("/" + altList(999, "a") + "{,/}")                                     // 1998
-	add("/" + altList(500, "a") + "{,/}")                                     // 1000
-	add("/{a,{b,{c,{d,{e,{f,g}}}}}}" + "{x,{y,z}}")                           // 7*3 nested sums
-	add("/" + strings.Repeat("{a,", 30) + "a" + strings.Repeat("}", 30))      // all alternatives equal
-	add("/{a,a}{b,b,b}")                                                      // duplicates: 1 distinct, 6 counting repeats
-	add("/{a,b,a}")                                                           // 2 distinct
-	add("/{{a,b},{b,a}}")                                                     // nested duplicates in different order
-	add("/" + strings.Repeat("{", 1000) + "a" + strings.Repeat("}", 1000))   // too deep
+	add("/" + strings.Repeat("{a,b}", 9))                                             // 512
+	add("/" + strings.Repeat("{a,b}", 10))                                            // 1024
+	add("/" + altList(1000, "a"))                                                     // 1000
+	add("/" + altList(1001, "a"))                                                     // 1001
+	add("/" + altList(999, "a") + "{,/}")                                             // 1998
+	add("/" + altList(500, "a") + "{,/}")                                             // 1000
+	add("/{a,{b,{c,{d,{e,{f,g}}}}}}" + "{x,{y,z}}")                                   // 7*3 nested sums
+	add("/" + strings.Repeat("{a,", 30) + "a" + strings.Repeat("}", 30))              // all alternatives equal
+	add("/{a,a}{b,b,b}")                                                              // duplicates: 1 distinct, 6 counting repeats
+	add("/{a,b,a}")                                                                   // 2 distinct
+	add("/{{a,b},{b,a}}")                                                             // nested duplicates in different order
+	add("/" + strings.Repeat("{", 1000) + "a" + strings.Repeat("}", 1000))            // too deep
 	add("/" + strings.Repeat("{", 999) + "a" + strings.Repeat("}", 999))
 	// many groups: the product passes 2^31, 2^63, 2^64 (two-way: k = 31/32, 63/64; three-way: k = 20/21, 40/41)
 	for _, k := range []int{5, 6, 7, 9, 10, 11, 20, 21, 30, 31, 32, 33, 40, 41, 62, 63, 64, 65, 70, 128} {
@@ -1124,45 +1204,53 @@ func TestC37(t *testing.T) {
 				c.paths = append(c.paths, cs.Path)
 			}
 		}
-		switch cs.Kind {
-		case "pattern":
-			p := pat{cs.Pattern, []string{cs.Pattern}}
-			res := c.checkPattern(p)
-			fmt.Printf("replay pattern %q: valid=%v variants=%q\n", cs.Pattern, res.valid, res.variants)
-			if res.valid {
-				for _, vi := range c.variants {
-					c.checkVariantPaths(vi)
-				}
-				c.checkPatternPaths(p, res)
-				if cs.Path != "" {
-					m, err := patterns.PathPatternMatches(cs.Pattern, cs.Path)
-					fmt.Printf("  PathPatternMatches(%q,%q)=%v,%v\n", cs.Pattern, cs.Path, m, err)
-					for _, v := range res.variants {
-						m, err := patterns.PathPatternMatches(v, cs.Path)
-						fmt.Printf("  variant %q on %q: %v,%v regex=%v\n", v, cs.Path, m, err, regexMatches(c.variants[v].v, cs.Path))
+		stuck := watchedFor(1, func(int) {
+			switch cs.Kind {
+			case "pattern":
+				p := pat{cs.Pattern, []string{cs.Pattern}}
+				res := c.checkPattern(p)
+				fmt.Printf("replay pattern %q: valid=%v variants=%q\n", cs.Pattern, res.valid, res.variants)
+				if res.valid {
+					for _, vi := range c.variants {
+						c.checkVariantPaths(vi)
+					}
+					c.checkPatternPaths(p, res)
+					if cs.Path != "" {
+						m, err := patterns.PathPatternMatches(cs.Pattern, cs.Path)
+						fmt.Printf("  PathPatternMatches(%q,%q)=%v,%v\n", cs.Pattern, cs.Path, m, err)
+						for _, v := range res.variants {
+							m, err := patterns.PathPatternMatches(v, cs.Path)
+							fmt.Printf("  variant %q on %q: %v,%v regex=%v\n", v, cs.Path, m, err, regexMatches(c.variants[v].v, cs.Path))
+						}
 					}
 				}
-			}
-		case "variant":
-			v, err := variantOf(cs.Pattern)
-			if err != nil {
-				eng.HarnessError("replay: %q is not a single-variant pattern: %v", cs.Pattern, err)
-			}
-			c.checkVariantPaths(c.variant(v, 1, cs.Pattern))
-		case "precedence":
-			var vs []patterns.PatternVariant
-			for _, s := range cs.Variants {
-				v, err := variantOf(s)
+			case "variant":
+				v, err := variantOf(cs.Pattern)
 				if err != nil {
-					eng.HarnessError("replay: %q is not a single-variant pattern: %v", s, err)
+					eng.HarnessError("replay: %q is not a single-variant pattern: %v", cs.Pattern, err)
 				}
-				vs = append(vs, v)
+				c.checkVariantPaths(c.variant(v, 1, cs.Pattern))
+			case "precedence":
+				var vs []patterns.PatternVariant
+				for _, s := range cs.Variants {
+					v, err := variantOf(s)
+					if err != nil {
+						eng.HarnessError("replay: %q is not a single-variant pattern: %v", s, err)
+					}
+					vs = append(vs, v)
+				}
+				c.checkPrecedence(cs.Path, vs, 64)
+			case "generalise":
+				c.checkGeneralise(cs.Pattern, cs.Other, cs.Path)
+			default:
+				eng.HarnessError("unknown case kind %q", cs.Kind)
 			}
-			c.checkPrecedence(cs.Path, vs, 64)
-		case "generalise":
-			c.checkGeneralise(cs.Pattern, cs.Other, cs.Path)
-		default:
-			eng.HarnessError("unknown case kind %q", cs.Kind)
+		})
+		if len(stuck) > 0 {
+			msg := fmt.Sprintf("replay of %s %q did not return within %v: the enumeration of its variants does not end", cs.Kind, cs.Pattern, renderTimeout)
+			fmt.Println("  render-never-ends: " + msg)
+			r.Violation("render-never-ends:"+strings.ReplaceAll(cs.Pattern, " ", "␣"), msg, cs)
+			r.Finish("replay")
 		}
 		// in a replay only violations that concern the stored input are of interest
 		for _, v := range col.byKey {
@@ -1204,7 +1292,7 @@ func TestC37(t *testing.T) {
 	results := make([]patResult, len(pats))
 	var nValid, nMulti, nMultiGroups int64
 	multiByte := func(s string) bool { return len(s) != len([]rune(s)) }
-	eng.ParallelFor(len(pats), func(i int) {
+	stuck := watchedFor(len(pats), func(i int) {
 		results[i] = c.checkPattern(pats[i])
 		if results[i].valid {
 			atomic.AddInt64(&nValid, 1)
@@ -1220,6 +1308,23 @@ func TestC37(t *testing.T) {
 	r.Add("patterns_valid", nValid)
 	r.Add("patterns_valid_with_multibyte_text", nMulti)
 	r.Add("patterns_valid_with_multibyte_text_and_2plus_variants", nMultiGroups)
+	abortOnStuck := func(stuck []int, describe func(i int) (string, vCase)) {
+		if len(stuck) == 0 {
+			return
+		}
+		// every further item could cost another renderTimeout: report and stop
+		for _, i := range stuck {
+			id, cs := describe(i)
+			col.add("render-never-ends", id, fmt.Sprintf("work on %s did not return within %v: the enumeration of its variants (RenderAllVariants on the pattern or on one of its expansions) does not end", id, renderTimeout), cs)
+		}
+		r.Cap("aborted", "an enumeration of variants did not end (reported as render-never-ends); the remaining inputs and all later passes were skipped")
+		col.flush(r)
+		r.Add("evaluations", int64(len(pats)))
+		r.Add("distinct_nontrivial", atomic.LoadInt64(&nValid))
+		r.Sample(vCase{Kind: "pattern", Pattern: "/a{,/}/**", Path: "/a/b"})
+		r.Finish("aborted after an endless variant enumeration; see the violations")
+	}
+	abortOnStuck(stuck, func(i int) (string, vCase) { return pats[i].s, vCase{Kind: "pattern", Pattern: pats[i].s} })
 	r.Add("patterns_rejected", int64(len(pats))-nValid)
 
 	// ---- pass B: every distinct variant on every path, both matchers
@@ -1312,7 +1417,7 @@ func TestC37(t *testing.T) {
 
 	// ---- pass E: specificity of one-step generalisations
 	var gEvals, gPairs int64
-	eng.ParallelFor(len(pats), func(i int) {
+	stuck = watchedFor(len(pats), func(i int) {
 		p := pats[i]
 		if !results[i].valid || len(p.tokens) > poolTokens {
 			return
@@ -1330,6 +1435,9 @@ func TestC37(t *testing.T) {
 			atomic.AddInt64(&gPairs, 1)
 			atomic.AddInt64(&gEvals, c.checkGeneralise(p.s, q, ""))
 		}
+	})
+	abortOnStuck(stuck, func(i int) (string, vCase) {
+		return "generalisations-of:" + pats[i].s, vCase{Kind: "pattern", Pattern: pats[i].s}
 	})
 	r.Add("generalisation_pairs", gPairs)
 	r.Add("generalisation_compares", gEvals)
